@@ -600,9 +600,14 @@ def oracle_hap_channel(ctx, rng):
             self.got = b""
 
         def handle_received(self):
-            self.got += self.buffer
-            self.buffer = b""
+            # like the real event/data channels: whole records are taken out, an incomplete
+            # record stays in self.buffer until more plaintext arrives
+            rec = self.record
+            while len(self.buffer) >= rec:
+                self.got += self.buffer[:rec]
+                self.buffer = self.buffer[rec:]
 
+    Chan.record = 1
     msgs = [pattern(rng, n) for n in (40, 1024, 300, 7, 1500)]
     wires, frames, ctr = [], [], 0
     for m in msgs:
@@ -618,6 +623,7 @@ def oracle_hap_channel(ctx, rng):
     for pos in positions:
         for mode in ("per-message", "chunks"):
             ch = Chan(KEY_OUT, KEY_IN)
+            ch.record = rng.choice([1, 1, 37, 500, 1100, 2000])
             ch.transport = FakeTransport()
             if pos is None:
                 bad_wires, bad = wires, clean
@@ -633,7 +639,8 @@ def oracle_hap_channel(ctx, rng):
                     ch.data_received(r)
                 except Exception:  # noqa: BLE001
                     break  # asyncio closes the transport on an exception from data_received
-            ctx.case(["hap-channel-oracle", pos, mode], pos is not None)
+            ctx.case(["hap-channel-oracle", pos, mode, ch.record], pos is not None)
+            ch.got += ch.buffer   # what the application holds: records taken + the incomplete one
             if pos is None:
                 if ch.got != b"".join(msgs):
                     ctx.fail("hap-channel:roundtrip", {"mode": mode}, "differs", "exact plaintext", "clean HAP channel stream not delivered exactly")
